@@ -390,6 +390,17 @@ def run(ctx) -> None:
         ctx.ob("C12.R4-controller-guards", rn.ast, ok,
                "restart is attempted only under restartHookOn / SubmissionFailed-with-budget / unstable-system guards" if ok else
                "component.restart() is reachable outside the three documented guards")
+    # R4b: the resubmission cap applies to EVERY restart after a failed submission, also when the component lists
+    # SubmissionFailed among its restartable reasons: a restart is reachable only when the reason is known not to be
+    # SubmissionFailed, or after the cap test passed
+    for rn in restart_nodes + unstable_nodes:
+        edges = [(n, match.other(l)) for n, l in g2a] + g2b_ok
+        ok = bool(g2a) and bool(g2b_ok) and match.only_via_edges(c2, rn, edges)
+        ctx.ob("C12.R4-controller-guards", rn.ast, ok,
+               "this restart is reached only for reasons other than SubmissionFailed, or after the resubmission cap test" if ok else
+               "this restart can be reached for exitReason == SubmissionFailed without the resubmission cap test (a component that "
+               "lists SubmissionFailed in restartHookOn is resubmitted without bound: the engine does not count such restarts either)",
+               construct=short(rn.ast, 80) + " <- not SubmissionFailed or cap test")
     for (n, keys) in g3:
         ok = {"Killed", "Cancelled"} <= keys
         ctx.ob("C12.R5-killed-cancelled-excluded", n.ast, ok,
